@@ -393,6 +393,10 @@ def compare(it, op, a, b):
         if k is ast.LtE:
             return BoolSV(g(ta, tb))
         return BoolSV(g(tb, ta))
+    if isinstance(a, float) and a == int(a):
+        a = int(a)  # A-time: an integral float tick count is that many ticks
+    if isinstance(b, float) and b == int(b):
+        b = int(b)
     ta, tb = it.to_int(a), it.to_int(b)
     return BoolSV({ast.Lt: ta < tb, ast.LtE: ta <= tb, ast.Gt: ta > tb, ast.GtE: ta >= tb}[k])
 
@@ -833,6 +837,9 @@ def builtin_attr(it, v, name):
             return Native(f"str.{name}", m)
     if isinstance(v, (BoundMethod,)) and name == "__self__":
         return v.self_val
+    if (isinstance(v, SV) and v.kind == "int" or isinstance(v, int)) and name == "total_seconds":
+        # A-time: a time span in ticks is its own number of seconds
+        return Native("timedelta.total_seconds", lambda it_, a, k: v)
     if isinstance(v, SV) and v.kind == "val":
         # attribute of a user element / exception: abstract projection
         f = z3.Function(f"attr_{name}", smt.Val, smt.Val)
